@@ -143,8 +143,11 @@ def special_scenarios(tier):
     # several copies in a structure whose atoms are stored in reverse / interleaved order (matches are not found in index order)
     scs += [dict(special='reordered', cell=ci, pat=pn, pose0=p0, layout=li, order=o, atol=0.05, decoy='none', noise=0, place=SPECIAL_PLACE)
             for ci in (0, 2) for pn in ('CN', 'CNO', 'CH4') for p0 in (0, 4) for li in (2, 3) for o in (0, 1)]
+    # matches that share their first atom: the C-H pair searched in CH4 / BF3-like stars, atoms stored in three orders
+    scs += [dict(special='star', cell=ci, pat=pn, order=o, subpose=pi, atol=0.05, decoy='none', noise=0, place=SPECIAL_PLACE) for ci in (0, 2, 4) for pn in ('CH4', 'BF3') for o in (0, 1, 2) for pi in (0, 4)]
     # a triclinic cell whose tilt factors are all negative
     scs += [dict(special='negcell', pat=pn, subpose=pi, place=pl, atol=0.05, decoy=d, noise=0) for pn in ('CN', 'CNO', 'CH4') for pi in (0, 4) for pl in [P(*c) for c in G.CORNERS[::3]] + [P(0.5, 0.5, 0.5)] for d in ('none', 'second')]
+    scs += [dict(special='negcell', pat=pn, subpose=4, place=pl, layout=li, atol=0.05, decoy='none', noise=0) for pn in ('CN', 'CNO', 'CH4', 'CHFClBr') for pl in (P(0.03, 0.03, 0.03), P(0.03, 0.97, 0.97)) for li in range(len(LAYOUTS))]
     return scs
 
 
@@ -156,10 +159,21 @@ def named_atoms(el, pos, cell):
 
 def special(sc, ctx):
     kind = sc['special']; seed = ctx['seed']
+    if kind == 'star':
+        cell = G.CELLS[sc['cell']][1]; sp = sub_poses(seed)
+        spec = G.build(cell, sc['pat'], sp[sc['subpose']], G.PLACEMENTS[P(0.97, 0.03, 0.97)], decoy='none', atol=sc['atol'], noise=False, seed=seed, extra_copies=[(sp[2], (0.5, 0.52, 0.48))])
+        n = len(spec['el']); perm = [list(range(n)), list(range(n))[::-1], list(range(1, n, 2)) + list(range(0, n, 2))[::-1]][sc['order']]
+        inv = {old: new for new, old in enumerate(perm)}
+        el = [spec['el'][i] for i in perm]; pos = np.asarray(spec['pos'])[perm]
+        pel = list(spec['pel'][:2]); pp = np.asarray(spec['pp'])[:2]
+        planted = [(inv[t[0]], inv[j]) for t in spec['planted'] for j in t[1:]]
+        spec = dict(el=el, pos=pos, pel=pel, pp=pp, planted=planted)
+        return dict(s=Atoms(elements=el, positions=pos, cell=cell.copy()), p=Atoms(elements=pel, positions=pp + np.array([3.3, -1.2, 0.7])), spec=spec, cell=cell, kw={})
     if kind in ('reordered', 'negcell'):
         if kind == 'negcell':
             rot = sub_poses(seed)[sc['subpose']]; cell = G.TRI_N
-            spec = G.build(cell, sc['pat'], rot, G.PLACEMENTS[sc['place']], decoy=sc['decoy'], atol=sc['atol'], noise=False, seed=seed)
+            extra = [(sub_poses(seed)[pi], fr) for pi, fr in LAYOUTS[sc['layout']]] if 'layout' in sc else ()
+            spec = G.build(cell, sc['pat'], rot, G.PLACEMENTS[sc['place']], decoy=sc['decoy'], atol=sc['atol'], noise=False, seed=seed, extra_copies=extra)
             perm = list(range(len(spec['el'])))
         else:
             cell = G.CELLS[sc['cell']][1]; sp = sub_poses(seed)
